@@ -1175,11 +1175,11 @@ def run(ctx):
                 "(chain cases consecutively on one channel object and one solver object); "
                 "distinct = emitted cases (id = configuration, case number)")
     ctx.assumptions += ["values compared with |x - x^| <= 1e-9 max(1, |x^|); log2 / log10 of the exact rational by Python's math",
-                        "cases with a zero SINR denominator (infinite / undefined SINR) are excluded in the specification",
-                        "the IA solver is bound on the plain interference channel (no external source, no joint processing): "
-                        "its API has no external-interference power",
+                        "an infinite SINR (zero denominator, non-zero signal) may be reported as +inf or as a number >= 1e9; undefined SINRs (0 / 0) are excluded",
+                        "the IA solver has no external-interference power in its API: on channels with external sources its SINR is "
+                        "demanded with pe = 1, the power its own calc_Q uses; its exact value is modelled for <= 2 streams per user",
                         "remaining-interference percentage is evaluated numerically from TLC's exact trace / determinant (rel)",
-                        "chains re-initialise through init_from_channel_matrix (randomize gives a channel TLC cannot know)",
+                        "chains re-initialise through init_from_channel_matrix; randomize() is judged (rel) at the end of every chain",
                         "the extreme scale factors (1e-9, 1e+9, 1e-17, 1e+17) rest on the term-by-term homogeneity TLC checks "
                         "with small rational factors"]
     seed = int(ctx.seed)
